@@ -295,4 +295,64 @@ def run(tier):
             rep.fail("PREMISE-%s:%s" % (pid, v["key"]), "premise of C52 (rule of %s) violated: %s" % (pid, v["msg"]))
         rep.discharged += sub.discharged
         rep.obligations += sub.discharged
+    # ---- R7 SHALL-FAIL-TABLE: the verdict of one command is 'the command failed' xor 'it was not expected to fail'
+    tl = os.path.join(REPO, "tfel-check/src/TestLauncher.cxx")
+    dt = cfgdump([tl], os.path.join(OUT, "C52", "dumptl"), funcs=r"^tfel::check::TestLauncher::execute$", root=REPO)
+    cmds = [f for f in load_functions(dt) if f.parent is None and len(f.params) == 4 and f.entry is not None]
+    if len(cmds) != 1:
+        raise AnalysisBroken("TestLauncher::execute(configuration, command, output file, step) not found (%d)" % len(cmds))
+    g = cmds[0]
+    runs = [s_ for s_, n in g.stmts.items() if n["k"] == "CXXMemberCallExpr" and (n.get("callee") or "").endswith("ProcessManager::execute")]
+    if len(runs) != 1:
+        raise AnalysisBroken("TestLauncher::execute: the call of ProcessManager::execute was not identified (%d)" % len(runs))
+
+    def atom_sf(f_, s):
+        n = f_.stmts.get(s)
+        if n is not None and n["k"] == "MemberExpr" and n.get("member") == "shall_fail":
+            return (("shall_fail",), False)
+        return None
+    bad_sf = []
+    nret = [0]
+
+    def el_sf(st, b, i, e):
+        if "s" not in e:
+            return (st,)
+        facts, ran = st
+        s_ = e["s"]
+        n = g.stmts[s_]
+        if s_ == runs[0]:
+            return ((facts, True),)
+        if n["k"] == "ReturnStmt" and ran:
+            nret[0] += 1
+            v = g.stmts[g.strip(g.kids(s_)[0])] if g.kids(s_) else None
+            is_false = v is not None and v["k"] == "CXXBoolLiteralExpr" and not v["value"]
+            if not is_false and dict(facts).get(("shall_fail",)) is not False:
+                bad_sf.append(s_)
+        return (st,)
+
+    def ed_sf(st, b, succ, pol):
+        facts, ran = st
+        fx = branch(g, b, pol, dict(facts), atom_sf)
+        return () if fx is None else ((tuple(sorted(fx.items())), ran),)
+    forward(g, (((), False),), el_sf, ed_sf)
+    rep.count("returns after the command ran to completion", nret[0])
+    if bad_sf:
+        rep.fail("SHALL-FAIL-TABLE@tfel::check::TestLauncher::execute", "%s: after the command ran to completion (ProcessManager::execute returned, "
+                 "i.e. exit status 0) TestLauncher::execute can return a value other than false without having tested 'shall_fail': a command "
+                 "declared {shall_fail: true} that succeeds is reported as a success, and tfel-check exits with 0 although a check failed"
+                 % rel(g.short_loc(bad_sf[0])))
+    else:
+        rep.ok("TestLauncher::execute: a command that runs to completion is a success only when it was not expected to fail")
+    # the handlers (the command failed) return the flag itself
+    hret = []
+    for s_, n in g.stmts.items():
+        if n["k"] == "CXXCatchStmt":
+            for x in g.walk(s_):
+                if g.stmts[x]["k"] == "ReturnStmt":
+                    hret.append(g.text(g.strip(g.kids(x)[0])))
+    if hret and all(t.endswith("shall_fail") for t in hret):
+        rep.ok("TestLauncher::execute: when the command fails the verdict is 'shall_fail' (%d handlers)" % len(hret))
+    else:
+        rep.fail("SHALL-FAIL-TABLE@tfel::check::TestLauncher::execute#handlers", "the handlers of TestLauncher::execute return %s instead of the shall_fail flag" % hret)
+    rep.floor("returns after the command ran to completion", 2)
     return rep
